@@ -56,7 +56,8 @@ def c01():
     rng = random.Random(chk.seed)
     rb = [random_behaviour(rng, faults=0.05, max_jobs=5, max_ops=5, max_m=4)
           for _ in range(_n(chk, 150, 1500))]
-    _run_traces(chk, rb, "random-large", start_tid=n + 1)
+    qp = lambda r: [r.choice(scenarios.QUERIES)] if r.random() < 0.5 else []  # noqa: E731
+    _run_traces(chk, rb, "random-large+queries-in-between", start_tid=n + 1, query_probe=qp, arg_probe=True)
     return chk.finish(
         "TLC: every reachable state of the Dispatcher spec over the instance family x filter "
         "compositions; traces: TLC-simulated behaviours (every prefix length) replayed on the real "
@@ -73,7 +74,9 @@ def c02():
     for b in behs:
         b["kinds"] = ["hist"]
         b["hist"] = [{"a": "Create", "o": 1}] + b["hist"]
-    n = _run_traces(chk, behs, "tlc-simulated+replay", replay_probe=True)
+    # memoised and uncached queries between the dispatches: a start time must not depend on what was asked before
+    qp = lambda r: [r.choice(scenarios.QUERIES)] if r.random() < 0.7 else []  # noqa: E731
+    n = _run_traces(chk, behs, "tlc-simulated+replay", replay_probe=True, query_probe=qp, arg_probe=True)
     rng = random.Random(chk.seed + 2)
     rb = []
     for _ in range(_n(chk, 150, 1500)):
@@ -81,7 +84,7 @@ def c02():
         b["kinds"] = ["hist"]
         b["hist"] = [{"a": "Create", "o": 1}] + b["hist"]
         rb.append(b)
-    _run_traces(chk, rb, "random-large+replay", start_tid=n + 1, replay_probe=True)
+    _run_traces(chk, rb, "random-large+replay", start_tid=n + 1, replay_probe=True, query_probe=qp, arg_probe=True)
     return chk.finish(
         "TLC: tracking = derive(schedule), forced starts, makespan in every reachable state; traces: "
         "every dispatch step compared with the specification's step, plus the recorded history "
@@ -110,6 +113,25 @@ def c05():
 
     rb = [random_behaviour(rng, resets=0.03, max_jobs=4, max_ops=4, max_m=3) for _ in range(_n(chk, 120, 1200))]
     _run_traces(chk, rb, "random-large-query-probes", start_tid=n + 1, query_probe=qprobe, arg_probe=True)
+    # the unscheduled-operations observer, attached at the start or in the middle of a history
+    from .ochecks import feature_trace
+    traces = []
+    base = n + len(rb) + 1
+    for i, b in enumerate(behs[: _n(chk, 150, 1200)] + rb[: _n(chk, 60, 600)]):
+        cut = rng.randint(0, len(b["hist"]))
+        s = __import__("harness.dsession", fromlist=["DSession"]).DSession(base + i, b["inst"], b["filt"], ())
+        s.header["featcheck"] = True
+        for k, a in enumerate(b["hist"]):
+            if k == cut:
+                s.create_builtin("UnscheduledOperationsObserver")
+            if a["a"] == "D":
+                s.dispatch(a["j"], a["p"], a["m"])
+            elif a["a"] == "Reset":
+                s.reset()
+        if cut >= len(b["hist"]):
+            s.create_builtin("UnscheduledOperationsObserver")
+        traces.append(s.trace())
+    chk.monitor(traces, source="unscheduled-observer-attached-mid-history")
     return chk.finish(
         "TLC: memoisation cache as a state variable, every order of the ten memoised queries "
         "interleaved with dispatches and resets (bounded depth); traces: TLC-chosen query "
@@ -182,7 +204,14 @@ def c09():
     rng = random.Random(chk.seed + 9)
     rb = [random_behaviour(rng, faults=0.3, resets=0.02, kinds=("rec", "hist", "rec"), obsops=0.05,
                            max_jobs=5, max_ops=5, max_m=4) for _ in range(_n(chk, 150, 1500))]
-    _run_traces(chk, rb, "random-large-faults", start_tid=n + 1)
+    _run_traces(chk, rb, "random-large-faults", start_tid=n + 1, arg_probe=True)
+    # the environment: steps for finished jobs, ineligible / out-of-range / negative machine ids, -1 on flexible operations
+    from .echecks import env_trace, random_env_cfg
+    base = n + len(rb) + 1
+    eb = behs[: _n(chk, 60, 500)] + rb[: _n(chk, 40, 400)]
+    traces = [env_trace(base + i, b, random_env_cfg(rng, True), rng, episodes=rng.choice([1, 2]), fault_prob=0.4)
+              for i, b in enumerate(eb)]
+    chk.monitor(traces, source="environment-steps-with-invalid-decisions")
     return chk.finish(
         "TLC: rejected requests (not-next operation, ineligible machine, machine id 0 / M+1, None on a "
         "flexible operation) enabled exactly when invalid and leaving every variable unchanged, at every "
@@ -205,6 +234,28 @@ def c10():
     rb = [random_behaviour(rng, faults=0.05, resets=0.05, kinds=("rec", "histsub", "hist", "rec"), obsops=0.15,
                            max_jobs=4, max_ops=4, max_m=3) for _ in range(_n(chk, 150, 1500))]
     _run_traces(chk, rb, "random-large-observers", start_tid=n + 1, create_or_get_probe=True)
+    # create_or_get_observer with a condition, on built-in (non-singleton) feature observers
+    import itertools as _it
+    from . import dsession as _ds
+    specs = [("RemainingOperationsObserver", ["jobs"]), ("RemainingOperationsObserver", ["machines", "jobs"]),
+             ("RemainingOperationsObserver", ["machines"]), ("DurationObserver", ["operations"]),
+             ("DurationObserver", ["jobs"]), ("DurationObserver", ["machines", "jobs"]),
+             ("IsReadyObserver", ["jobs"]), ("IsReadyObserver", ["operations", "jobs"])]
+    traces = []
+    base = n + len(rb) + 1
+    for i in range(_n(chk, 60, 400)):
+        b = behs[i % len(behs)]
+        s = _ds.DSession(base + i, b["inst"], b["filt"], ())
+        created = rng.sample(specs, rng.randint(1, 4))
+        for (t, fts) in created:
+            s.create_builtin(t, fts)
+        for (t, fts) in rng.sample(specs, 3) + [rng.choice(created)]:
+            s.create_or_get_cond(t, fts)
+        if rng.random() < 0.5:
+            s.create_builtin("IsCompletedObserver", rng.choice([["machines", "jobs"], ["jobs"], None]))
+            s.create_or_get_cond("RemainingOperationsObserver", ["jobs"])
+        traces.append(s.trace())
+    chk.monitor(traces, source="create-or-get-with-condition")
     return chk.finish(
         "TLC: one Notify step per subscriber; notification log = dispatches made while subscribed, in "
         "subscription order, each seeing the post-state through the memoised queries; singleton rule with "
